@@ -86,8 +86,12 @@ Definition tcp_close (cx : ctx) (s : Z) (w : net) : net * list kc :=
              <| t_outst := [] |> <| t_recv_null := false |> <| t_next_in := 0 |> <| t_next_out := 0 |>
              <| t_last_drop := 0 |> in
   let t := if d6_close_clears (cv cx) then t <| t_inq := [] |> <| t_reorder := [] |> <| t_outgoing := [] |> else t in
+  let diag := match t_outgoing (get_tcp w s) with
+              | [] => []
+              | l => [KLog (TAG_DIAG, [s; Z.of_nat (length l); t_inflight (get_tcp w s)])]
+              end in
   let (w, c1) := tcp_cancel s (set_tcp w s t) in
-  (w, c0 ++ c1).
+  (w, diag ++ c0 ++ c1).
 
 (* tcp::socket::open *)
 Definition tcp_open (cx : ctx) (s : Z) (v4 : bool) (w : net) : net * list kc :=
